@@ -156,6 +156,8 @@ type Case struct {
 
 	// Trust: the SP's trust configuration (one of spkit.Trusts; "" = meta1), every kind that drives an SP
 	Trust string `json:"trust,omitempty"`
+	// Noise: SP options that concern only what it sends (spkit.Noise)
+	Noise uint64 `json:"noise,omitempty"`
 
 	// encplain: arbitrary plaintext inside a well-formed EncryptedAssertion addressed to the SP
 	Plain     string `json:"plain,omitempty"`
@@ -274,8 +276,12 @@ func deflateIn(container string, b []byte, level int) []byte {
 // curTrust is the trust configuration of the case being judged (cases are judged one at a time).
 var curTrust = "meta1"
 
+var curNoise uint64
+
 func newSP() *saml.ServiceProvider {
-	return spkit.NewSP(spkit.Config{Trust: curTrust})
+	sp := spkit.NewSP(spkit.Config{Trust: curTrust})
+	spkit.Noise(sp, curNoise)
+	return sp
 }
 
 type discard struct{}
@@ -1121,6 +1127,7 @@ func check(c Case) pbt.Result {
 		kindTime[k] += time.Since(t0)
 		kindCount[k]++
 	}()
+	curNoise = c.Noise
 	curTrust = "meta1"
 	if c.Trust != "" {
 		ok := false
@@ -1253,6 +1260,14 @@ func genMutOps(t *rapid.T) []MutOp {
 }
 
 func gen(t *rapid.T) Case {
+	c := gen0(t)
+	if c.Trust != "" && rapid.Bool().Draw(t, "noise?") {
+		c.Noise = rapid.Uint64Range(1, 255).Draw(t, "noise")
+	}
+	return c
+}
+
+func gen0(t *rapid.T) Case {
 	c := gen1(t)
 	if pbt.Fuzzing() {
 		// keep single inputs cheap under the fuzzing engine (its workers are killed when one
